@@ -31,6 +31,10 @@ func main() {
 		os.Exit(avahistepMain(os.Args[2:]))
 	case "hubstep":
 		os.Exit(hubstepMain(os.Args[2:]))
+	case "wsfuzz":
+		os.Exit(wsfuzzMain(os.Args[2:]))
+	case "mdnsfuzz":
+		os.Exit(mdnsfuzzMain(os.Args[2:]))
 	case "connstep":
 		os.Exit(connstepMain(os.Args[2:]))
 	default:
